@@ -299,6 +299,17 @@ def check_case(case):
                                    if kind == 'linker' else []):
             attempt(target.add_variable, nm, shared, **({} if dt == 'none' else {'dtype': float if dt == 'float' else int}))
         res.tag('copy:same-array-added-to-both')
+    if case.get('set_both'):
+        # the caller assigns one and the same sequence object to a variable of both objects
+        import array as _array
+        selidx, how = case['set_both']
+        n_ = len(labels)
+        shared = {'buffer': _array.array('d', [i + 0.5 for i in range(n_)]), 'ndarray': np.arange(n_, dtype=float) + 0.5,
+                  'list': [i + 0.5 for i in range(n_)]}[how]
+        name_ = CO.pick_name(obj, ['var', selidx])
+        for target in (obj, cp):
+            attempt(setattr, target, name_, shared)
+        res.tag('copy:same-sequence-assigned-to-both:' + how)
     post = case.get('post') or []
     res.nontrivial = any(op[0] not in ('setattr', 'setitem', 'setlabel', 'setslice', 'inplace', 'values', 'replace_values') for op in post)
     for i, op in enumerate(post):
@@ -352,6 +363,8 @@ def strategy(mode):
                 case['route'] = draw(st.integers(0, 2))
                 case['side'] = draw(st.sampled_from(['copy', 'orig']))
                 case['values_both'] = draw(st.sampled_from([False, False, True]))
+                if draw(st.integers(0, 4)) == 0:
+                    case['set_both'] = [draw(st.integers(0, 2)), draw(st.sampled_from(['buffer', 'ndarray', 'list']))]
                 if draw(st.integers(0, 3)) == 0:
                     case['add_both'] = [draw(st.sampled_from(['Q', 'W', 'new'])), draw(st.sampled_from(['float', 'int', 'none']))]
             else:
@@ -386,6 +399,9 @@ def gen_fixed():
                             if op[0] in ('inplace', 'solve', 'setattr'):
                                 yield {'mode': 'copy', 'kind': kind, 'span': desc, 'pre': [], 'route': route, 'side': side,
                                        'values_both': True, 'post': [op]}
+                                for how in ('buffer', 'ndarray', 'list'):
+                                    yield {'mode': 'copy', 'kind': kind, 'span': desc, 'pre': [], 'route': route, 'side': side,
+                                           'set_both': [0, how], 'post': [['inplace', ['var', 0], 1, 9]]}
                                 for dt in ('float', 'none'):
                                     yield {'mode': 'copy', 'kind': kind, 'span': desc, 'pre': [], 'route': route, 'side': side,
                                            'add_both': ['W', dt], 'post': [['inplace', ['var', -1], 1, 9]]}
